@@ -3,12 +3,20 @@
 
 package pubsub
 
+import "github.com/StephenButtolph/canoto"
+
 //go:generate go run github.com/StephenButtolph/canoto/canoto $GOFILE
 
 type BatchMessage struct {
 	Messages [][]byte `canoto:"repeated bytes,1"`
 
 	canotoData canotoData_BatchMessage
+}
+
+// batchedSize returns the number of bytes [msg] occupies in an encoded
+// BatchMessage (field tag + length prefix + content).
+func batchedSize(msg []byte) int {
+	return len(canoto__BatchMessage__Messages__tag) + int(canoto.SizeBytes(msg))
 }
 
 func CreateBatchMessage(msgs [][]byte) []byte {
